@@ -229,8 +229,14 @@ impl Ctx {
             let rewritten_same = old_lt.is_some() || whole(&a) == whole(&b);
             // ... and what was written parses back to one packet that is written the same way again
             let reparsed_same = { use pgp::ser::Serialize; b.iter().all(|p| match p { Ok(p) => p.to_bytes().ok().map(|w| { let again: Vec<_> = PacketParser::new(&w[..]).collect(); again.len() == 1 && matches!(&again[0], Ok(q) if q.to_bytes().ok().as_deref() == Some(&w[..])) }).unwrap_or(false), Err(_) => true }) };
-            (show(&a), show(&b), rewritten_same && reparsed_same)
+            (show(&a), show(&b), rewritten_same && reparsed_same, if b.len() == 1 && b[0].is_ok() { Some(whole(&b)) } else { None })
         });
+        // the same against the model's rule for writing a packet that was read (Frame/Rewrite.v)
+        if let Ok((_, _, _, Some(w))) = &r { if w != "ERR" {
+            let indet = old_lt == Some(3);
+            self.out.case("rewrite", &[(old_lt.is_some() as u8).to_string(), tag.to_string(), (indet as u8).to_string(), hx(body)], &["parse_same".into(), tag.to_string(), hx(body), nums(&ks.iter().map(|&k| k as usize).collect::<Vec<_>>()), clsn.to_string(), old_lt.map(|x| x.to_string()).unwrap_or("-".into())], w, None, &format!("{cls}-rewritten"));
+        } }
+        let r = r.map(|(a, b, c, _)| (a, b, c));
         let (imp, pred) = match r { Ok((a, b, rw)) => (format!("{} rewritten-legally={}", (a == b) as u8, rw as u8), a == b && !a.contains("ERR") && rw), Err(p) => (p, false) };
         self.out.case("", &[], &["parse_same".into(), tag.to_string(), hx(body), nums(&ks.iter().map(|&k| k as usize).collect::<Vec<_>>()), clsn.to_string(), old_lt.map(|x| x.to_string()).unwrap_or("-".into())], &imp, Some(pred), cls);
     }
